@@ -220,6 +220,25 @@ Example C10_nil_cursor_panics_ex :
   /\ uses_cursor Z (OTruncate 2) 2.
 Proof. split; vm_compute; reflexivity. Qed.
 
+(* Statement order.  The model executes the statements of invalidate's loop body, of Remove, of
+   Truncate, of List.Clear and of Queue.Pop in the order of their ordinals in the Go source
+   (Gen: ord:assign / ord:call); this is that order, read back.  All closed forms -- and through
+   them every theorem above -- are proved for this order; swapping two of the statements in the
+   source changes the left-hand sides and breaks this theorem and those proofs. *)
+Theorem C10_statement_order : forall (T : Type) (zero : T),
+  inv_body T = [inv_next T; inv_self T; inv_adv T] /\
+  rm_body T = [rm_val T; rm_next T; rm_self T; rm_new T] /\
+  (forall n, tr_body T n = [tr_inval T n; tr_nil T]) /\
+  cl_body T = [cl_inval T; cl_nil T] /\
+  pop_body T zero = [pop_remove T zero; pop_size T; pop_reset T].
+Proof. intros. repeat split. Qed.
+Print Assumptions C10_statement_order.
+
+(* the same interpreter puts swapped ordinals in swapped order *)
+Example C10_statement_order_ex :
+  in_order [(8, 1); (7, 2); (5, 3); (6, 4)]%Z = [3; 4; 2; 1]%Z.
+Proof. reflexivity. Qed.
+
 (* F7, for the record: with Truncate as it was before repair e389bb4 (no checkValid), Truncate
    through a cursor whose pred is self-linked never returns, whatever the fuel ... *)
 Theorem C10_F7_pinned_truncate_hangs : forall (T : Type) (zero : T) (h : heap T) (cs : list link) (k a : nat),
